@@ -55,6 +55,10 @@ def cases(draw, op="read", invalid=False, many=False, size_bias=None, packing=Fa
             # the controller refuses the n-th tag service it receives (may be one fragment of a fragmented transfer)
             status = draw(st.sampled_from([0x02, 0x04, 0x05, 0x10, 0x20, 0xFF]))
             forced.append({"when": {"nth": draw(st.one_of(st.integers(0, 4), st.integers(0, 16)))}, "status": status, "ext": []})
+        elif draw(st.integers(0, 9)) == 0:
+            # one connected frame of the call is refused at the encapsulation layer (header-only reply with an error status);
+            # the index counts SendUnitData frames from the open of the connection, so it is drawn after the upload's frames
+            forced.append({"when": {"unitdata_after_open": draw(st.integers(0, 6)), "packet": True}, "status": draw(st.sampled_from([0x02, 0x03, 0x64, 0x65, 0x69, 0x1234])), "ext": []})
         elif draw(st.integers(0, 7)) == 0:
             # the controller refuses a whole Multiple Service Packet (e.g. 0x11 "reply data too large"), once or every time
             status = draw(st.one_of(st.sampled_from([0x11, 0x11, 0x1E, 0x13, 0x15, 0x08, 0x02]), st.integers(1, 0x2C).filter(lambda x: x != 6)))
